@@ -4,7 +4,7 @@
    The goal, at full strength (NOT proved; every conjunct of `valid` not listed in the partial theorem
    below is evaluated by the monitor on the implementation's own document for every generated program):
 
-     Theorem C01_builder_valid : forall tys p g,
+     C01_builder_valid (the goal) : forall tys p g,
        WFProg p ->                      (* inputs wired once, linear values used once, Ext/Dom wires copyable,
                                            order edges forward: the premises of harness/progs.py *)
        run tys p = Ok g ->
